@@ -289,6 +289,33 @@ pub fn run(ctx: Ctx, replay: Option<PathBuf>) -> i32 {
         let nt = g.macro_uses >= 3 || g.inferred_types() >= 5;
         items.push(Item { name: format!("template{i}"), text: g.print(), nontrivial: nt, tape: tp });
     }
+    // CFG skeletons with the template families of C03 (LR(1)-but-not-LALR(1) grammars make the
+    // lane-table construction split states - a code path no repository grammar and no
+    // macro-heavy template reaches; bracket families, nullable chains ..)
+    let n_cfg = ctx.tier.pick(40usize, 1000usize);
+    let n_split = ctx.tier.pick(40usize, 600usize);
+    let (mut got_cfg, mut got_split) = (0usize, 0usize);
+    for (i, tp) in tape::sample_tapes(ctx.seed ^ 0x20c0, 40 * (n_cfg + n_split), 8, 160).into_iter().enumerate() {
+        if got_cfg >= n_cfg && got_split >= n_split {
+            break;
+        }
+        let (g, tags) = crate::gen::gen_cfg(&mut Tape::new(&tp));
+        let templated = tags.iter().any(|t| t.starts_with("template:"));
+        let split = tags.iter().any(|t| *t == "template:lr1-not-lalr");
+        if split {
+            if got_split >= n_split {
+                continue;
+            }
+            got_split += 1;
+        } else {
+            if got_cfg >= n_cfg || (!templated && i % 4 != 0) {
+                continue;
+            }
+            got_cfg += 1;
+        }
+        let text = g.print(crate::gspec::PrintCfg::new(false, false));
+        items.push(Item { name: format!("cfg{i}{}", if split { "-lr1-not-lalr" } else { "" }), text, nontrivial: split, tape: tp });
+    }
     // identical texts (the corpus has a few) would be indistinguishable targets: keep the first
     let mut seen_text = std::collections::BTreeSet::new();
     items.retain(|it| seen_text.insert(hash_of(&it.text)));
@@ -410,7 +437,7 @@ pub fn run(ctx: Ctx, replay: Option<PathBuf>) -> i32 {
         }
     }
     for &i in &accepted {
-        ck.class(if items[i].name.starts_with("template") { "grammar:template" } else { "grammar:corpus" });
+        ck.class(if items[i].name.starts_with("template") { "grammar:template" } else if items[i].name.contains("lr1-not-lalr") { "grammar:cfg-skeleton-lr1-not-lalr" } else if items[i].name.starts_with("cfg") { "grammar:cfg-skeleton" } else { "grammar:corpus" });
         if items[i].nontrivial {
             ck.nontrivial(&items[i].text);
         }
